@@ -124,6 +124,20 @@ def pandas_diff(a, b):
     return None
 
 
+def content_diff(a, b):
+    """None if two pandas objects hold the same VALUES (bit for bit) under the same INDEX labels in the same order (and the same
+    columns): what a later call with the object computes from.  Names / dtypes are not part of this (see pandas_diff)."""
+    if type(a) is not type(b) or list(a.index) != list(b.index):
+        return f"index {list(b.index)!r} -> {list(a.index)!r}"
+    if isinstance(a, pd.DataFrame) and list(a.columns) != list(b.columns):
+        return f"columns {list(b.columns)!r} -> {list(a.columns)!r}"
+    xa, xb = np.asarray(a, dtype=np.float64).reshape(-1), np.asarray(b, dtype=np.float64).reshape(-1)
+    for i, (x, y) in enumerate(zip(xa, xb)):
+        if f2h(x) != f2h(y):
+            return f"value {i}: {float(y)!r} -> {float(x)!r}"
+    return None
+
+
 def bits(r):
     """bit pattern(s) of a scalar / array / Series result, with the index of a Series"""
     if isinstance(r, pd.Series):
@@ -272,6 +286,55 @@ K_UNSIGNED = "load-unsigned-cycles-wraparound"
 K_NOCURVE = "cycles-label-without-curve-infinite-life"
 
 
+SEQ_PROPS = ["SD", "ND", "k_1", "k_2", "TN", "TS", "failure_probability", "to_pandas"]
+SEQ_MINER = ["miner_original", "miner_elementary", "miner_haibach"]
+
+
+def gen_seq(rng):
+    """a random sequence of calls on ONE kept WoehlerCurve object and on the objects it hands out (Miner variants, also
+    chained; transformed curves), interleaved.  "obj" = -1: the accessor built from the data, i >= 0: the object returned by
+    op i.  Few distinct failure probabilities and loads (repeats are what a stale cache needs), loads mostly below the knee,
+    cycle numbers mostly beyond ND."""
+    m = rng.choice([1, 1, 2, 3])
+    base = gen_curve(rng)
+    curves = []
+    for _ in range(m):
+        c = gen_curve(rng)
+        for key in ("TN", "TS", "pf0", "k2"):
+            if base.get(key) is None:
+                c[key] = None
+            elif c.get(key) is None:
+                c[key] = base[key]
+        curves.append(c)
+    if m == 1 and rng.random() < 0.3:
+        curves[0]["acc"] = "fatigue"
+    ref = curves[0]
+    pfs = [rng.choice([0.5, native_pf(ref)]), gen_pf(rng)]
+    loads = [ref["SD"] * f for f in (0.5, rng.uniform(0.2, 0.95), 1.0, rng.uniform(1.05, 3.0))]
+    cycs = [ref["ND"] * f for f in (10.0, loguni(rng, 1.5, 1e3), 1.0, loguni(rng, 1e-3, 0.7))]
+    ops, pool = [], [-1]
+    for i in range(rng.randrange(5, 16)):
+        obj = rng.choice(pool) if rng.random() < 0.6 else rng.choice([-1, pool[-1]])
+        r = rng.random()
+        if r < 0.3:
+            op = {"obj": obj, "op": "cycles", "x": rng.choice(loads[:2] if rng.random() < 0.7 else loads), "pf": rng.choice(pfs)}
+        elif r < 0.5:
+            op = {"obj": obj, "op": "load", "x": rng.choice(cycs[:2] if rng.random() < 0.7 else cycs), "pf": rng.choice(pfs)}
+        elif r < 0.62:
+            op = {"obj": obj, "op": "transform", "pf": rng.choice(pfs)}
+            pool.append(i)
+        elif r < 0.85:
+            op = {"obj": obj, "op": rng.choice(SEQ_MINER)}
+            pool.append(i)
+        else:
+            op = {"obj": obj, "op": rng.choice(SEQ_PROPS)}
+        if op["op"] in ("cycles", "load") and rng.random() < 0.25:
+            op["container"] = rng.choice(["array", "series"]) if m == 1 else "series"      # an argument object whose integrity is checked
+            op["x"] = [op["x"], rng.choice(loads if op["op"] == "cycles" else cycs)]
+        ops.append(op)
+    return {"t": "seq", "curves": curves, "ops": ops}
+
+
 class C08(Prop):
     ID = "C08"
     PARALLEL = 8          # impl_lines / oracle are sharded over forked processes by core.pmap
@@ -319,6 +382,11 @@ class C08(Prop):
             "uint64 / uint32 / Python-int values, one failure probability and one per row of the frame; every broadcast is "
             "compared with the model's map / cross / zip functions AND element by element with the scalar model under the "
             "pairing that label alignment has to produce; 'sc' = scatter conversions and the numeric constants; "
+            "'seq' (oracle only) = ONE WoehlerCurve object (Series or frame of curves) kept across a random sequence of cycles / load / "
+            "transform_to_failure_probability (few scalar probabilities, repeated) / miner_original / _elementary / _haibach "
+            "(chained; calls on the variants interleaved with calls on the original) / SD ND k_1 k_2 TN TS to_pandas(): every "
+            "result bit-equal to the same call on a FRESH object built from the original data by the same chain of "
+            "constructors, in every order, data and argument objects unchanged; "
             "'ppf' = the driver's normal quantile against scipy. Doubles compared with rtol 1e-11 (inf/NaN exactly). "
             "non-trivial = a target probability differs from the native one or a load lies below the knee; "
             "distinct by full case content")
@@ -328,6 +396,7 @@ class C08(Prop):
         "C08: the literal 0.39015207303618954 is not exactly 1/(2*Phi^-1(0.9)): the TN/TS quantile theorems give the exact exponent 2*z90*c and the identity under the hypothesis 2*z90*c = 1; |2*ppf(0.9)*c - 1| < 1e-15 is checked numerically (scipy and driver), |c*c2 - 1| < 1e-16 for the two literals is proved in Lean",
         "C08: pandas glue (accessor copy, _validate, broadcast to Series/DataFrame, index alignment) is modelled as element-wise map / cross product / zip; alignment BY LABEL is computed by the harness (which value meets which curve) and the paired scalar evaluations are compared with the model and, in the oracle, with scalar calls of the real code; a curve without a value gives NaN; a value whose label has no curve must give NaN (repaired behaviour, finding cycles-label-without-curve-infinite-life)",
         "C08: integer-typed loads / cycle numbers / curve fields mean the same numbers as floats (the oracle demands bit-equal results); unsigned cycle numbers into load() were a recorded defect (load-unsigned-cycles-wraparound, fixed by /repo commit c9a3e4d): the finding being fixed, those inputs go through the correspondence like every other input (only while the class has status open would they be judged by the oracle alone, which then tolerates exactly the reproduced defective value)",
+        "C08 'seq' clause: judged are the RESULTS (a kept object against a fresh one, bit for bit) and the values / index labels and order of the data and argument objects; changes that alter no later result (a renamed Series, a dtype, the optional keys that _validate fills into the accessor's own copy) are outside the property and only counted (seq_cosmetic_changes_not_judged)",
         "C08: loads and cycle numbers are positive; for load <= 0 the code returns inf/NaN without raising (outside the theorems' guards)",
         "C08 HARNESS-SIDE READING (k_2 = NaN): a NaN in k_2 (a frame assembled from curves with and without the key holds NaN there) is read as 'no second slope' = infinity, like a missing k_2 (class docstring of WoehlerCurve): the harness function `k2_of` maps a missing, an 'inf' and a 'nan' k_2 to +inf BEFORE the curve reaches the model, so the Lean model never sees a NaN slope and the theorems say nothing about one; the real code is fed the NaN itself, and correspondence and oracle demand the infinite life of a curve without second slope below the knee (finding cycles-nan-k2-not-infinite, a regression of 7867a83 repaired by /repo commit c54eae5)",
     ]
@@ -477,6 +546,9 @@ class C08(Prop):
         for i in range(n_sc):
             yield {"t": "sc", "T": rng.choice([1.0, 1.0 + loguni(rng, 1e-6, 100.0)]),
                    "s": rng.choice([0.0, loguni(rng, 1e-6, 2.0)])}
+        # ONE accessor object kept across a sequence of calls (oracle only): see _oracle_seq
+        for i in range(120 if quick else 1200):
+            yield gen_seq(rng)
         n_ppf = 60 if quick else 2000
         for i in range(n_ppf):
             yield {"t": "ppf", "p": gen_pf(rng) if rng.random() < 0.5 else rng.choice(
@@ -747,6 +819,93 @@ class C08(Prop):
             return self._oracle_bc(case)
         if t == "sc":
             return self._oracle_sc(case)
+        if t == "seq":
+            return self._oracle_seq(case)
+        return None
+
+    # -------------------------------------------------------------- ONE object kept across a sequence of calls
+    def _seq_user(self, case):
+        curves = case["curves"]
+        if len(curves) == 1:
+            obj = curve_series(curves[0])
+            return obj, accessor(curves[0], obj)
+        df = self._frame(curves)
+        return df, df.woehler
+
+    @staticmethod
+    def _seq_arg(op):
+        x = op["x"]
+        if op.get("container") == "array":
+            return np.array([float(v) for v in x])
+        if op.get("container") == "series":
+            return pd.Series([float(v) for v in x], index=pd.Index([10, 12], name="x"))
+        return float(x)
+
+    @staticmethod
+    def _seq_apply(target, op, arg=None):
+        """(canonical result, new object or None) of one op on `target`"""
+        name = op["op"]
+        if name in ("cycles", "load"):
+            return bits(getattr(target, name)(arg, float(op["pf"]))), None
+        if name == "transform":
+            new = target.transform_to_failure_probability(float(op["pf"]))
+            return (type(new).__name__, bits(new.to_pandas())), new
+        if name in SEQ_MINER:
+            new = getattr(target, name)()
+            return (type(new).__name__, bits(new.to_pandas())), new
+        if name == "to_pandas":
+            return bits(target.to_pandas()), None
+        return bits(getattr(target, name)), None
+
+    def _oracle_seq(self, case):
+        """Every result of a call on a kept object (the accessor, a Miner variant of it, a transformed curve, chains of
+        them) equals the result of the same call on a FRESH object built from the original data by the same chain of
+        constructors - whatever was called before, on this object or on its relatives; and no call alters the data the
+        accessor was built from or an argument object."""
+        _wc()
+        ops = case["ops"]
+        user, root = self._seq_user(case)
+        user0 = user.copy(deep=True)
+        kept = {-1: root}
+        recipe = {-1: []}                      # object id -> the constructor ops that lead to it from the data
+        said = []
+        self._count("kinds", "seq")
+        for i, op in enumerate(ops):
+            src = op["obj"]
+            if src not in kept:
+                continue                        # (after shrinking) the op that made this object is gone
+            said.append(f"#{i} obj{src if src >= 0 else ''}.{op['op']}(" + ", ".join(
+                repr(op[k]) for k in ("x", "pf") if k in op) + ")")
+            arg = self._seq_arg(op) if "x" in op else None
+            arg0 = arg.copy() if hasattr(arg, "copy") else arg
+            got, new = self._seq_apply(kept[src], op, arg)
+            # the same call on a fresh object
+            _fu, fresh = self._seq_user(case)
+            for c in recipe[src]:
+                fresh = self._seq_apply(fresh, c)[1]
+            want, _fn = self._seq_apply(fresh, op, self._seq_arg(op) if "x" in op else None)
+            if got != want:
+                return (f"the result of call {said[-1]} on a kept WoehlerCurve object differs from the same call on a fresh object "
+                        f"built from the same data ({got[-1] if isinstance(got[-1], tuple) else got} vs {want[-1] if isinstance(want[-1], tuple) else want}, "
+                        f"bit patterns); calls so far: {'; '.join(said)}; object {src} was made by "
+                        f"{[c['op'] for c in recipe[src]] or 'series.woehler'}; curves={case['curves']!r}", "object-history-dependent")
+            if arg0 is not None and hasattr(arg0, "copy"):
+                same = (content_diff(arg, arg0) is None) if isinstance(arg, pd.Series) else bits(arg) == bits(arg0)
+                if same and isinstance(arg, pd.Series) and pandas_diff(arg, arg0) is not None:
+                    self.stats["seq_cosmetic_changes_not_judged"] = self.stats.get("seq_cosmetic_changes_not_judged", 0) + 1
+                if not same:
+                    return (f"call {said[-1]} altered its argument object; curves={case['curves']!r}", "argument-altered")
+            if new is not None:
+                kept[i] = new
+                recipe[i] = recipe[src] + [op]
+            d = content_diff(user, user0)
+            if d is None and pandas_diff(user, user0) is not None:
+                # a name / dtype change that alters no later result: outside the property, counted only
+                self.stats["seq_cosmetic_changes_not_judged"] = self.stats.get("seq_cosmetic_changes_not_judged", 0) + 1
+            if d is not None:
+                return (f"call {said[-1]} altered the pandas object the accessor was created from ({d}); calls so far: "
+                        f"{'; '.join(said)}; curves={case['curves']!r}", "signal-altered")
+        self.stats["seq_ops"] = self.stats.get("seq_ops", 0) + len(said)
         return None
 
     def _oracle_curve(self, case):
@@ -1130,7 +1289,30 @@ class C08(Prop):
         return None
 
     # -------------------------------------------------------------- shrinking
+    def _shrink_seq(self, case, still_fails):
+        cur = case
+        changed = True
+        while changed:
+            changed = False
+            for i in reversed(range(len(cur["ops"]))):
+                if any(o["obj"] == i for o in cur["ops"]):
+                    continue                    # another op works on the object this one returns
+                ops = [dict(o) for j, o in enumerate(cur["ops"]) if j != i]
+                for o in ops:
+                    if o["obj"] > i:
+                        o["obj"] -= 1
+                trial = {**cur, "ops": ops}
+                try:
+                    if ops and still_fails(trial):
+                        cur, changed = trial, True
+                        break
+                except Exception:
+                    pass
+        return cur
+
     def shrink(self, case, still_fails):
+        if case.get("t") == "seq":
+            return self._shrink_seq(case, still_fails)
         cur = dict(case)
         if cur["t"] == "curve":
             for key in ("pfs", "loads", "cycles"):
